@@ -1,1 +1,265 @@
 //! Verification hook: public wrapper of frame encoding (frame.rs) and the connection preface.
+//!
+//! C09 (wire encoding is lossless and canonical): a type-erased view (`WireValue`) of the crate-private
+//! wire types (`preface::{Encryption, Endpoint}`, `rpc::*::{Req, Resp}`, the three `Handshake`s), so that an
+//! out-of-crate harness can build them from public parts and run `zksync_protobuf::{encode, decode, canonical}`
+//! on them. Constructors only; no behaviour is added.
+//!
+//! `consensus::handshake`, `gossip::handshake` and `mux::handshake` are private modules of their parents and are
+//! therefore not nameable from here. Their *source files* are mounted a second time below (`#[path]`), i.e.
+//! the very same `struct Handshake` + `impl ProtoFmt for Handshake` text is compiled as a child of this module.
+//! Nothing is copied: any change to those files changes what the harness exercises.
+use std::{collections::HashMap, fmt::Debug, sync::Arc};
+
+use zksync_consensus_engine::{BlockStoreState, Transaction};
+use zksync_consensus_roles::{node, validator};
+use zksync_protobuf::{build::prost_reflect::ReflectMessage, ProtoFmt};
+
+// Names the re-mounted files refer to through `super::`.
+#[allow(unused_imports)]
+use crate::{gossip::Connection, mux::CapabilityId};
+use crate::{preface, rpc};
+
+#[allow(dead_code, unused_imports, unreachable_pub, missing_docs, clippy::all)]
+#[path = "../consensus/handshake/mod.rs"]
+mod consensus_handshake;
+
+#[allow(dead_code, unused_imports, unreachable_pub, missing_docs, clippy::all)]
+#[path = "../gossip/handshake/mod.rs"]
+mod gossip_handshake;
+
+#[allow(dead_code, unused_imports, unreachable_pub, missing_docs, clippy::all)]
+#[path = "../mux/handshake.rs"]
+mod mux_handshake;
+
+/// Type-erased wire value: everything the C09 monitors need from a `T: ProtoFmt`.
+pub trait WireValue {
+    /// Fully qualified name of the protobuf message `T::Proto`.
+    fn proto_name(&self) -> String;
+    /// `x.build().encode_to_vec()` (prost's own, non-canonical, serialisation).
+    fn prost_bytes(&self) -> Vec<u8>;
+    /// `zksync_protobuf::encode(x)`.
+    fn encode(&self) -> Vec<u8>;
+    /// `zksync_protobuf::canonical(x)`.
+    fn canonical(&self) -> Vec<u8>;
+    /// `zksync_protobuf::decode::<T>(bytes)` compared with the value (`Err` = decoding failed).
+    fn decode_eq(&self, bytes: &[u8]) -> anyhow::Result<bool>;
+    /// `{:?}` of the value (or of a faithful projection for types without `Debug`).
+    fn debug(&self) -> String;
+    /// For hashed types: `(ByteFmt::encode(x.hash()), encode(x))`; the monitor checks `hash == keccak256(encode)`.
+    fn hash_and_preimage(&self) -> Option<(Vec<u8>, Vec<u8>)> {
+        None
+    }
+}
+
+/// Name of `T::Proto`.
+pub fn proto_name_of<T: ProtoFmt>() -> String {
+    <T::Proto as Default>::default()
+        .descriptor()
+        .full_name()
+        .to_string()
+}
+
+/// `x.build().encode_to_vec()`.
+pub fn prost_bytes_of<T: ProtoFmt>(x: &T) -> Vec<u8> {
+    prost::Message::encode_to_vec(&x.build())
+}
+
+/// Adapter for any `ProtoFmt` type with structural equality.
+pub struct W<T>(pub T);
+
+impl<T: ProtoFmt + PartialEq + Debug> WireValue for W<T> {
+    fn proto_name(&self) -> String {
+        proto_name_of::<T>()
+    }
+    fn prost_bytes(&self) -> Vec<u8> {
+        prost_bytes_of(&self.0)
+    }
+    fn encode(&self) -> Vec<u8> {
+        zksync_protobuf::encode(&self.0)
+    }
+    fn canonical(&self) -> Vec<u8> {
+        zksync_protobuf::canonical(&self.0)
+    }
+    fn decode_eq(&self, bytes: &[u8]) -> anyhow::Result<bool> {
+        Ok(zksync_protobuf::decode::<T>(bytes)? == self.0)
+    }
+    fn debug(&self) -> String {
+        format!("{:?}", self.0)
+    }
+}
+
+/// Type keys of the values constructible through this module.
+pub fn private_kinds() -> &'static [&'static str] {
+    &[
+        "network::consensus::Handshake",
+        "network::gossip::Handshake",
+        "network::preface::Encryption",
+        "network::preface::Endpoint",
+        "network::mux::Handshake",
+        "network::rpc::consensus::Req",
+        "network::rpc::consensus::Resp",
+        "network::rpc::ping::Req",
+        "network::rpc::ping::Resp",
+        "network::rpc::push_validator_addrs::Req",
+        "network::rpc::push_tx::Req",
+        "network::rpc::push_block_store_state::Req",
+        "network::rpc::get_block::Req",
+        "network::rpc::get_block::Resp",
+    ]
+}
+
+/// `consensus::handshake::Handshake { session_id, genesis }`.
+pub fn consensus_handshake(
+    session_id: validator::Signed<node::SessionId>,
+    genesis: validator::GenesisHash,
+) -> Box<dyn WireValue> {
+    Box::new(W(consensus_handshake::Handshake {
+        session_id,
+        genesis,
+    }))
+}
+
+/// `gossip::handshake::Handshake { session_id, genesis, is_static, build_version }`.
+pub fn gossip_handshake(
+    session_id: node::Signed<node::SessionId>,
+    genesis: validator::GenesisHash,
+    is_static: bool,
+    build_version: Option<semver::Version>,
+) -> Box<dyn WireValue> {
+    Box::new(W(gossip_handshake::Handshake {
+        session_id,
+        genesis,
+        is_static,
+        build_version,
+    }))
+}
+
+/// `preface::Encryption::NoiseNN` (the only variant).
+pub fn preface_encryption() -> Box<dyn WireValue> {
+    Box::new(W(preface::Encryption::NoiseNN))
+}
+
+/// `preface::Endpoint::{ConsensusNet, GossipNet}`.
+pub fn preface_endpoint(gossip: bool) -> Box<dyn WireValue> {
+    Box::new(W(if gossip {
+        preface::Endpoint::GossipNet
+    } else {
+        preface::Endpoint::ConsensusNet
+    }))
+}
+
+/// `rpc::consensus::Req`.
+pub fn rpc_consensus_req(msg: validator::Signed<validator::ConsensusMsg>) -> Box<dyn WireValue> {
+    Box::new(W(rpc::consensus::Req(msg)))
+}
+
+/// `rpc::consensus::Resp`.
+pub fn rpc_consensus_resp() -> Box<dyn WireValue> {
+    Box::new(W(rpc::consensus::Resp))
+}
+
+/// `rpc::ping::Req`.
+pub fn rpc_ping_req(data: [u8; 32]) -> Box<dyn WireValue> {
+    Box::new(W(rpc::ping::Req(data)))
+}
+
+/// `rpc::ping::Resp`.
+pub fn rpc_ping_resp(data: [u8; 32]) -> Box<dyn WireValue> {
+    Box::new(W(rpc::ping::Resp(data)))
+}
+
+/// `rpc::push_validator_addrs::Req`.
+pub fn rpc_push_validator_addrs_req(
+    addrs: Vec<validator::Signed<validator::NetAddress>>,
+) -> Box<dyn WireValue> {
+    Box::new(W(rpc::push_validator_addrs::Req(
+        addrs.into_iter().map(Arc::new).collect(),
+    )))
+}
+
+/// `rpc::push_tx::Req`.
+pub fn rpc_push_tx_req(tx: Transaction) -> Box<dyn WireValue> {
+    Box::new(W(rpc::push_tx::Req(tx)))
+}
+
+/// `rpc::push_block_store_state::Req`.
+pub fn rpc_push_block_store_state_req(state: BlockStoreState) -> Box<dyn WireValue> {
+    Box::new(W(rpc::push_block_store_state::Req { state }))
+}
+
+/// `rpc::get_block::Req`.
+pub fn rpc_get_block_req(number: validator::BlockNumber) -> Box<dyn WireValue> {
+    Box::new(W(rpc::get_block::Req(number)))
+}
+
+/// `rpc::get_block::Resp`.
+pub fn rpc_get_block_resp(block: Option<validator::Block>) -> Box<dyn WireValue> {
+    Box::new(W(rpc::get_block::Resp(block)))
+}
+
+/// `mux::handshake::Handshake` (no `PartialEq` / `Debug`: compared and printed through its two maps, sorted).
+struct MuxHandshake(mux_handshake::Handshake);
+
+fn sorted(m: &HashMap<CapabilityId, u32>) -> Vec<(u64, u32)> {
+    let mut v: Vec<_> = m.iter().map(|(k, v)| (*k, *v)).collect();
+    v.sort();
+    v
+}
+
+impl WireValue for MuxHandshake {
+    fn proto_name(&self) -> String {
+        proto_name_of::<mux_handshake::Handshake>()
+    }
+    fn prost_bytes(&self) -> Vec<u8> {
+        prost_bytes_of(&self.0)
+    }
+    fn encode(&self) -> Vec<u8> {
+        zksync_protobuf::encode(&self.0)
+    }
+    fn canonical(&self) -> Vec<u8> {
+        zksync_protobuf::canonical(&self.0)
+    }
+    fn decode_eq(&self, bytes: &[u8]) -> anyhow::Result<bool> {
+        let got = zksync_protobuf::decode::<mux_handshake::Handshake>(bytes)?;
+        Ok(sorted(&got.accept_max_streams) == sorted(&self.0.accept_max_streams)
+            && sorted(&got.connect_max_streams) == sorted(&self.0.connect_max_streams))
+    }
+    fn debug(&self) -> String {
+        format!(
+            "mux::Handshake {{ accept: {:?}, connect: {:?} }}",
+            sorted(&self.0.accept_max_streams),
+            sorted(&self.0.connect_max_streams)
+        )
+    }
+}
+
+/// `mux::handshake::Handshake` with the two maps filled by inserting the given entries in the given order
+/// (or in the reverse order) into fresh `HashMap`s; a later entry with the same id replaces an earlier one.
+pub fn mux_handshake(
+    accept: Vec<(u64, u32)>,
+    connect: Vec<(u64, u32)>,
+    reverse_insertion: bool,
+) -> Box<dyn WireValue> {
+    fn fill(mut entries: Vec<(u64, u32)>, reverse: bool) -> HashMap<CapabilityId, u32> {
+        if reverse {
+            // keep "later entry wins" for duplicate ids: drop the shadowed entries first
+            let mut last: Vec<(u64, u32)> = vec![];
+            for (id, max) in entries.drain(..) {
+                last.retain(|e| e.0 != id);
+                last.push((id, max));
+            }
+            entries = last;
+            entries.reverse();
+        }
+        let mut m = HashMap::new();
+        for (id, max) in entries {
+            m.insert(id, max);
+        }
+        m
+    }
+    Box::new(MuxHandshake(mux_handshake::Handshake {
+        accept_max_streams: fill(accept, reverse_insertion),
+        connect_max_streams: fill(connect, reverse_insertion),
+    }))
+}
